@@ -265,7 +265,125 @@ func ZZC04Kinds() {
 	v.Assert(cerr != nil, "C04/check-accepts-example-violating-its-rule")
 }
 
+// ZZC04Or: a literal example under an or / type rule over user types: Check accepts iff the example
+// is admitted by one of the named types (an object type never admits a literal), and reports the
+// example's position otherwise.
+func ZZC04Or() {
+	// example: an integer of one or two digits, or a string of 0..3 plain bytes
+	var ex []byte
+	isInt := v.Choose(0, 1) == 0
+	val, slen := 0, 0
+	if isInt {
+		d := v.Byte()
+		v.Assume('1' <= d && d <= '9')
+		ex = []byte{d}
+		val = int(d - '0')
+		if v.Choose(0, 1) == 1 {
+			d2 := v.Byte()
+			v.Assume('0' <= d2 && d2 <= '9')
+			ex = append(ex, d2)
+			val = val*10 + int(d2-'0')
+		}
+	} else {
+		slen = v.Choose(0, 3)
+		ex = []byte{'"'}
+		for i := 0; i < slen; i++ {
+			c := v.Byte()
+			v.Assume(c >= 0x20 && c < 0x7f && c != '"' && c != '\\')
+			ex = append(ex, c)
+		}
+		ex = append(ex, '"')
+	}
+	types := []struct {
+		name, text string
+		admits     func() bool
+	}{
+		{"@obj", `{"a": 1}`, func() bool { return false }},
+		{"@big", `10 // {min: 10}`, func() bool { return isInt && val >= 10 }},
+		{"@small", `1 // {max: 5}`, func() bool { return isInt && val <= 5 }},
+		{"@str", `"ab" // {minLength: 2}`, func() bool { return !isInt && slen >= 2 }},
+		{"@arr", `[1]`, func() bool { return false }},
+	}
+	a := v.Choose(0, len(types)-1)
+	b := v.Choose(0, len(types)-1)
+	var rule string
+	ok := false
+	if v.Choose(0, 1) == 0 {
+		v.Assume(a != b)
+		rule = `{or: ["` + types[a].name + `", "` + types[b].name + `"]}`
+		ok = types[a].admits() || types[b].admits()
+	} else {
+		rule = `{type: "` + types[a].name + `"}`
+		ok = types[a].admits()
+	}
+	asProp := v.Choose(0, 1) == 1
+	off := 0
+	text := cat(ex, bs(" // "), bs(rule))
+	if asProp {
+		pre := "{\n  \"k\": "
+		off = len(pre)
+		text = cat(bs(pre), text, bs("\n}"))
+	}
+	v.Observe("schema", text)
+	s := jschema.New("s", text)
+	for _, t := range types {
+		v.Assert(s.AddType(t.name, jschema.New(t.name, t.text)) == nil, "C04/addtype-failed")
+	}
+	cerr := s.Check()
+	if ok {
+		v.Reach("C04/or-admitted")
+		v.Assert(cerr == nil, "C04/check-rejects-valid-schema")
+		if cerr == nil {
+			doc := ex
+			if asProp {
+				doc = cat(bs(`{"k":`), ex, bs(`}`))
+			}
+			v.Assert(s.Validate(json.New("d", doc)) == nil, "C04/accepted-schema-rejects-its-own-example")
+		}
+		return
+	}
+	v.Reach("C04/or-excluded")
+	v.Assert(cerr != nil, "C04/check-accepts-example-violating-its-rule")
+	if cerr != nil {
+		pe, isPE := cerr.(jlib.ParsingError)
+		v.Assert(isPE, "C04/error-without-position")
+		if isPE {
+			v.Assert(int(pe.Position()) == off, "C04/error-position-is-not-the-offending-value")
+		}
+	}
+}
+
+// ZZC04Esc: a string example written with escape sequences under length rules: the bounds count
+// the decoded bytes of the example, as they do for documents.
+func ZZC04Esc() {
+	lit, dec := docString(v.Param("pieces", 2), v.Param("piecekinds", 6))
+	hasMin := v.Choose(0, 1) == 1
+	p := uintLit()
+	rule := "maxLength"
+	ok := len(dec) <= int(p[0]-'0')
+	if hasMin {
+		rule = "minLength"
+		ok = len(dec) >= int(p[0]-'0')
+	}
+	text := cat(lit, bs(" // {"), bs(rule), bs(": "), p, bs("}"))
+	v.Observe("schema", text)
+	s := jschema.New("s", text)
+	cerr := s.Check()
+	if ok {
+		v.Reach("C04/esc-obeys")
+		v.Assert(cerr == nil, "C04/check-rejects-valid-schema")
+		if cerr == nil {
+			v.Assert(s.Validate(json.New("d", lit)) == nil, "C04/accepted-schema-rejects-its-own-example")
+		}
+		return
+	}
+	v.Reach("C04/esc-violates")
+	v.Assert(cerr != nil, "C04/check-accepts-example-violating-its-rule")
+}
+
 func init() {
+	ZZHarnesses["ZZC04Esc"] = ZZC04Esc
+	ZZHarnesses["ZZC04Or"] = ZZC04Or
 	ZZHarnesses["ZZC04Nest"] = ZZC04Nest
 	ZZHarnesses["ZZC04Kinds"] = ZZC04Kinds
 	ZZHarnesses["ZZC04"] = ZZC04
